@@ -259,6 +259,7 @@ func recase(w string) string {
 }
 
 var spaces = []string{" ", "  ", "\t", "\n", " \n\t ", "\r\n"}
+var uspaces = []string{"\u0085", "\u00a0", "\u2003", "\u3000", " \u00a0", "\u2003 ", "\u00a0\u3000"}
 
 func pairs(sents []sentence) {
 	c := &gram.Concretizer{Rng: rng}
@@ -294,6 +295,21 @@ func pairs(sents []sentence) {
 		b.WriteString(spaces[rng.Intn(len(spaces))])
 		emit(pairEvent{Ev: "Pair", Var: "ws", A: a, B: lexRun(b.String())})
 		stats["pair:ws"]++
+		// (2b) the same with white space beyond ASCII (the lexer skips whatever unicode.IsSpace accepts): runes of two
+		// and three bytes next to every token
+		var ub strings.Builder
+		for i, t := range texts {
+			if t == "" {
+				continue
+			}
+			if i > 0 && !gram.Glued(s.S, i) {
+				ub.WriteString(uspaces[rng.Intn(len(uspaces))])
+			}
+			ub.WriteString(t)
+		}
+		ub.WriteString(uspaces[rng.Intn(len(uspaces))])
+		emit(pairEvent{Ev: "Pair", Var: "wsu", A: a, B: lexRun(ub.String())})
+		stats["pair:wsu"]++
 		// (3) the base written as compactly as the punctuation allows vs the spaced text
 		var cb strings.Builder
 		for i, t := range texts {
